@@ -116,6 +116,16 @@ func checkC09(e *Env) {
 				}
 			}
 			emit(&Item{Op: plan.Op{Fn: "new", N: n, L: lg, Src: &plan.Src{Data: hx(r.Bytes(64))}}, Exp: c09exp{fn: "new", n: n, lang: lg, source: "working"}})
+			if n >= 9 && n <= 27 {
+				// working sources that deliver in short reads, and one that flags EOF with the last byte
+				for _, chunk := range []int{1, 3, 7, 16, 20, 31} {
+					var st []plan.Step
+					for k := 0; k < 64; k += chunk {
+						st = append(st, plan.Step{N: chunk})
+					}
+					emit(&Item{Op: plan.Op{Fn: "new", N: n, L: lg, Src: &plan.Src{Data: hx(r.Bytes(64)), Steps: st}}, Exp: c09exp{fn: "new", n: n, lang: lg, source: "working"}})
+				}
+			}
 			emit(&Item{Op: plan.Op{Fn: "new", N: n, L: lg, Src: &plan.Src{Data: hx(r.Bytes(8)), Steps: []plan.Step{{N: 3, E: "custom"}}}}, Exp: c09exp{fn: "new", n: n, lang: lg, source: "failing"}})
 			emit(&Item{Op: plan.Op{Fn: "new", N: n, L: lg}, Exp: c09exp{fn: "new", n: n, lang: lg, source: "default"}})
 		}
